@@ -237,7 +237,12 @@ Lemma parts_fuel_eq f c0 c1 r2 cur subrepo :
 Proof. reflexivity. Qed.
 
 Lemma has_prefix_3slash r : has_prefix (lit "///") (47%N :: 47%N :: r) = head_is 47 r.
-Proof. destruct r as [|x r]; [reflexivity|]. cbn. rewrite (N.eqb_sym 47 x). apply andb_true_r. Qed.
+Proof.
+  destruct r as [|x r]; [reflexivity|].
+  change (has_prefix (lit "///") (47%N :: 47%N :: x :: r)) with (N.eqb 47 47 && (N.eqb 47 47 && (N.eqb 47 x && true))).
+  change (head_is 47 (x :: r)) with (N.eqb x 47).
+  rewrite N.eqb_refl, andb_true_r. cbn [andb]. apply N.eqb_sym.
+Qed.
 
 (* //pkg:name *)
 Lemma parse_plain f pkg name cur sr :
@@ -249,8 +254,8 @@ Proof.
   rewrite has_prefix_3slash, (valid_pkg_head pkg (58%N :: name) Hp eq_refl).
   change (negb (N.eqb 47 47) || negb (N.eqb 47 47)) with false. cbn iota.
   change (47%N :: 47%N :: pkg ++ 58%N :: name) with ((47%N :: 47%N :: pkg) ++ 58%N :: name).
-  rewrite split_byte_app by (cbn; rewrite (valid_pkg_no_colon pkg Hp); reflexivity).
-  cbn [skipn]. rewrite Hp, Hn. fold dots. rewrite Hd. reflexivity.
+  rewrite split_byte_app by (rewrite !mem_byte_cons, (valid_pkg_no_colon pkg Hp); reflexivity).
+  cbn [skipn]. rewrite Hp, Hn. change (lit all_subpackages_name) with dots. rewrite Hd. reflexivity.
 Qed.
 
 (* //pkg/... and //... *)
@@ -262,11 +267,11 @@ Proof.
   assert (Hnil : is_nil pkg = false) by (destruct pkg; [contradiction|reflexivity]). rewrite Hnil.
   rewrite parts_fuel_eq.
   change (N.eqb 47 58) with false. change (N.eqb 47 64) with false. cbn iota.
-  rewrite has_prefix_3slash, (valid_pkg_head pkg (lit "/...") Hp eq_refl).
+  rewrite has_prefix_3slash, (head_is_app 47 pkg (lit "/...") Hne), Hh.
   change (negb (N.eqb 47 47) || negb (N.eqb 47 47)) with false. cbn iota.
   rewrite split_byte_none.
   2:{ change (47%N :: 47%N :: pkg ++ lit "/...") with ((47%N :: 47%N :: pkg) ++ lit "/...").
-      rewrite mem_byte_app. cbn. rewrite (valid_pkg_no_colon pkg Hp). reflexivity. }
+      rewrite mem_byte_app, !mem_byte_cons, (valid_pkg_no_colon pkg Hp). reflexivity. }
   assert (Hv : valid_pkg (pkg ++ lit "/...") = true).
   { apply valid_pkg_intro.
     - rewrite head_is_app by exact Hne. exact Hh.
@@ -294,6 +299,13 @@ Qed.
 
 (* ---- String() then parse ------------------------------------------------------------------------------------------- *)
 
+Lemma label_eqb_neq a b : label_eqb a b = false <-> a <> b.
+Proof.
+  destruct (label_eqb a b) eqn:E.
+  - apply label_eqb_eq in E. split; [discriminate|contradiction].
+  - split; [intros _ H; apply label_eqb_eq in H; congruence|reflexivity].
+Qed.
+
 Definition sub_ok (sub : str) : Prop :=
   mem_byte 58 sub = false /\ contains_dslash sub = false /\ last_is 47 sub = false.
 
@@ -302,36 +314,229 @@ Definition sub_ok (sub : str) : Prop :=
 Definition wf (l : label) : Prop :=
   valid_pkg (l_pkg l) = true /\ valid_name (l_name l) = true /\ sub_ok (l_sub l) /\ l <> original_target.
 
+Lemma print_shape pkg name sub :
+  label_eqb (L pkg name sub) zero_label = false -> label_eqb (L pkg name sub) original_target = false ->
+  print (L pkg name sub) =
+    (if is_nil sub then [] else 47%N :: 47%N :: 47%N :: sub) ++
+    47%N :: 47%N :: pkg ++ (if str_eqb name dots then (if is_nil pkg then lit "..." else lit "/...") else 58%N :: name).
+Proof.
+  intros Hz Hor. unfold print. rewrite Hz, Hor. unfold is_all_sub. simpl l_pkg. simpl l_name. simpl l_sub.
+  change (lit all_subpackages_name) with dots.
+  destruct sub as [|c sub], (str_eqb name dots), (is_nil pkg); cbn [is_nil];
+    change (lit "//") with [47%N; 47%N]; change (lit "///") with [47%N; 47%N; 47%N]; change (lit ":") with [58%N];
+    cbn [app]; rewrite <- ?app_assoc; cbn [app]; reflexivity.
+Qed.
+
 Theorem roundtrip_wf l cur : wf l -> try_parse (print l) cur [] = Parsed l.
 Proof.
-  intros (Hp & Hn & (Hc & Hd & Hl) & Ho). destruct l as [pkg name sub]. cbn in Hp, Hn, Hc, Hd, Hl.
+  intros (Hp & Hn & (Hc & Hd & Hl) & Ho). destruct l as [pkg name sub]. simpl in Hp, Hn, Hc, Hd, Hl.
   destruct (valid_name_inv name Hn) as [Hne _].
   assert (Hz : label_eqb (L pkg name sub) zero_label = false).
-  { destruct (label_eqb _ _) eqn:E; [|reflexivity]. apply label_eqb_eq in E. injection E as _ E _. contradiction. }
+  { apply label_eqb_neq. intros E. injection E as _ E _. contradiction. }
   assert (Hor : label_eqb (L pkg name sub) original_target = false).
-  { destruct (label_eqb _ _) eqn:E; [|reflexivity]. apply label_eqb_eq in E. contradiction. }
+  { apply label_eqb_neq. exact Ho. }
   assert (Hnn : is_nil name = false) by (destruct name; [contradiction|reflexivity]).
-  unfold print. rewrite Hz, Hor. cbn [l_pkg l_name l_sub]. unfold is_all_sub. cbn [l_name]. fold dots.
-  unfold try_parse, parse_parts.
+  rewrite (print_shape pkg name sub Hz Hor). unfold try_parse, parse_parts.
   destruct (str_eqb name dots) eqn:Ed.
   - apply str_eqb_eq in Ed. subst name.
     destruct sub as [|c sub]; cbn [is_nil].
-    + replace ((lit "//" ++ pkg) ++ (if is_nil pkg then lit "..." else lit "/..."))
-        with (47%N :: 47%N :: pkg ++ (if is_nil pkg then lit "..." else lit "/...")) by (destruct (is_nil pkg); reflexivity).
-      replace (if is_nil pkg then (lit "//" ++ pkg) ++ lit "..." else (lit "//" ++ pkg) ++ lit "/...")
-        with (47%N :: 47%N :: pkg ++ (if is_nil pkg then lit "..." else lit "/...")) by (destruct (is_nil pkg); reflexivity).
-      rewrite (parse_dots _ pkg cur [] Hp). reflexivity.
-    + replace (if is_nil pkg then (lit "///" ++ (c :: sub) ++ lit "//" ++ pkg) ++ lit "..." else (lit "///" ++ (c :: sub) ++ lit "//" ++ pkg) ++ lit "/...")
-        with (47%N :: 47%N :: 47%N :: (c :: sub) ++ 47%N :: 47%N :: (pkg ++ (if is_nil pkg then lit "..." else lit "/...")))
-        by (destruct (is_nil pkg); cbn; rewrite <- !app_assoc; reflexivity).
-      cbn [length]. rewrite (parse_subrepo _ (c :: sub) _ cur [] pkg dots [] Hc Hd Hl); [reflexivity|].
+    + cbn [app length]. rewrite (parse_dots _ pkg cur [] Hp). reflexivity.
+    + set (rest := pkg ++ (if is_nil pkg then lit "..." else lit "/...")).
+      change ((47%N :: 47%N :: 47%N :: c :: sub) ++ 47%N :: 47%N :: rest)
+        with (47%N :: 47%N :: 47%N :: (c :: sub) ++ 47%N :: 47%N :: rest).
+      change (S (length (47%N :: 47%N :: 47%N :: (c :: sub) ++ 47%N :: 47%N :: rest)))
+        with (S (S (length (47%N :: 47%N :: (c :: sub) ++ 47%N :: 47%N :: rest)))).
+      rewrite (parse_subrepo _ (c :: sub) rest cur [] pkg dots [] Hc Hd Hl); [reflexivity|].
       apply parse_dots. exact Hp.
   - destruct sub as [|c sub]; cbn [is_nil].
-    + change ((lit "//" ++ pkg) ++ lit ":" ++ name) with (47%N :: 47%N :: pkg ++ 58%N :: name).
-      rewrite (parse_plain _ pkg name cur [] Hp Hn Ed). rewrite Hnn. reflexivity.
-    + replace ((lit "///" ++ (c :: sub) ++ lit "//" ++ pkg) ++ lit ":" ++ name)
-        with (47%N :: 47%N :: 47%N :: (c :: sub) ++ 47%N :: 47%N :: (pkg ++ 58%N :: name))
-        by (cbn; rewrite <- !app_assoc; reflexivity).
-      cbn [length]. rewrite (parse_subrepo _ (c :: sub) _ cur [] pkg name [] Hc Hd Hl); [rewrite Hnn; reflexivity|].
+    + cbn [app length]. rewrite (parse_plain _ pkg name cur [] Hp Hn Ed). rewrite Hnn. reflexivity.
+    + set (rest := pkg ++ 58%N :: name).
+      change ((47%N :: 47%N :: 47%N :: c :: sub) ++ 47%N :: 47%N :: rest)
+        with (47%N :: 47%N :: 47%N :: (c :: sub) ++ 47%N :: 47%N :: rest).
+      change (S (length (47%N :: 47%N :: 47%N :: (c :: sub) ++ 47%N :: 47%N :: rest)))
+        with (S (S (length (47%N :: 47%N :: (c :: sub) ++ 47%N :: 47%N :: rest)))).
+      rewrite (parse_subrepo _ (c :: sub) rest cur [] pkg name [] Hc Hd Hl); [rewrite Hnn; reflexivity|].
       apply parse_plain; assumption.
 Qed.
+
+(* ---- the fuel is enough ------------------------------------------------------------------------------------------- *)
+
+Lemma subrepo_with_some rec target cur :
+  (forall rest, length rest <= length target -> rec rest cur [] <> None) -> subrepo_with rec target cur <> None.
+Proof.
+  intros Hrec. unfold subrepo_with.
+  destruct (split_dslash target) as [[pre rest]|] eqn:D.
+  - destruct (split_dslash_some _ _ _ D) as (Hx & _ & _).
+    destruct (mem_byte 58 pre); [discriminate|].
+    assert (Hlen : length rest <= length target) by (rewrite Hx, app_length; lia).
+    specialize (Hrec rest Hlen). destruct (rec rest cur []) as [[[p n] x]|]; [discriminate|contradiction].
+  - destruct (split_byte 58 target) as [[pre post]|] eqn:B; [|discriminate].
+    destruct (split_byte_some _ _ _ _ B) as (Hx & Hm). rewrite Hm.
+    assert (Hlen : length (58%N :: post) <= length target) by (rewrite Hx, app_length; lia).
+    specialize (Hrec _ Hlen). destruct (rec (58%N :: post) cur []) as [[[p n] x]|]; [discriminate|contradiction].
+Qed.
+
+Lemma parts_fuel_enough f : forall t cur sr, length t < f -> parts_fuel f t cur sr <> None.
+Proof.
+  induction f as [|f IH]; intros t cur sr Hlen; [lia|].
+  destruct t as [|c0 [|c1 r2]]; try discriminate.
+  rewrite parts_fuel_eq.
+  destruct (N.eqb c0 58); [destruct (valid_name (c1 :: r2)); discriminate|].
+  destruct (N.eqb c0 64).
+  { apply subrepo_with_some. intros rest Hr. apply IH. cbn [length] in *. lia. }
+  destruct (has_prefix (lit "///") (c0 :: c1 :: r2)).
+  { apply subrepo_with_some. intros rest Hr. apply IH.
+    assert (H3 : length (skipn 3 (c0 :: c1 :: r2)) <= length r2) by (change (skipn 3 (c0 :: c1 :: r2)) with (skipn 1 r2); rewrite skipn_length; lia).
+    cbn [length] in Hlen. lia. }
+  destruct (negb (N.eqb c0 47) || negb (N.eqb c1 47)); [discriminate|].
+  destruct (split_byte 58 (c0 :: c1 :: r2)) as [[pre name]|].
+  - cbn zeta. destruct (negb (valid_pkg (skipn 2 pre)) || negb (valid_name name) || str_eqb name (lit all_subpackages_name)); discriminate.
+  - destruct (negb (valid_pkg r2)); [discriminate|]. destruct (has_suffix (lit "/...") (c0 :: c1 :: r2)); discriminate.
+Qed.
+
+Theorem try_parse_never_out_of_fuel t cur sr : try_parse t cur sr <> OutOfFuel.
+Proof.
+  unfold try_parse, parse_parts.
+  destruct (parts_fuel (S (length t)) t cur sr) as [[[p n] x]|] eqn:E.
+  - destruct (is_nil n); discriminate.
+  - exfalso. exact (parts_fuel_enough (S (length t)) t cur sr (Nat.lt_succ_diag_r _) E).
+Qed.
+
+(* ---- what the parser accepts --------------------------------------------------------------------------------------- *)
+
+Definition sr_ok (sr : str) : Prop := mem_byte 58 sr = false /\ contains_dslash sr = false.
+
+Lemma sr_ok_nil : sr_ok [].
+Proof. split; reflexivity. Qed.
+
+Lemma drop_while_suffix f l : exists z, l = z ++ drop_while f l.
+Proof.
+  induction l as [|b l [z IH]]; [exists []; reflexivity|].
+  cbn [drop_while]. destruct (f b); [exists (b :: z); cbn; rewrite <- IH; reflexivity|exists []; reflexivity].
+Qed.
+
+Lemma head_is_drop_while c l : head_is c (drop_while (N.eqb c) l) = false.
+Proof.
+  induction l as [|b l IH]; [reflexivity|]. cbn [drop_while].
+  destruct (N.eqb c b) eqn:E; [exact IH|]. cbn [head_is]. rewrite N.eqb_sym. exact E.
+Qed.
+
+Lemma trim_right_prefix c a : (exists z, a = trim_right c a ++ z) /\ last_is c (trim_right c a) = false.
+Proof.
+  unfold trim_right, last_is. rewrite rev_involutive. split; [|apply head_is_drop_while].
+  destruct (drop_while_suffix (N.eqb c) (rev a)) as [z Hz]. exists (rev z).
+  rewrite <- rev_app_distr, <- Hz, rev_involutive. reflexivity.
+Qed.
+
+Lemma drop_last_prefix n a : exists z, a = drop_last n a ++ z.
+Proof.
+  unfold drop_last. exists (rev (firstn n (rev a))).
+  rewrite <- rev_app_distr, firstn_skipn, rev_involutive. reflexivity.
+Qed.
+
+Lemma subrepo_with_inv rec target cur p n x :
+  (forall rest p n x, rec rest cur [] = Some (p, n, x) -> valid_pkg p = true /\ sr_ok x) ->
+  subrepo_with rec target cur = Some (p, n, x) -> valid_pkg p = true /\ sr_ok x.
+Proof.
+  intros Hrec. unfold subrepo_with.
+  destruct (split_dslash target) as [[pre rest]|] eqn:D.
+  - destruct (split_dslash_some _ _ _ D) as (_ & Hc & _).
+    destruct (mem_byte 58 pre) eqn:M.
+    + intros H. injection H as <- <- <-. split; [reflexivity|apply sr_ok_nil].
+    + destruct (rec rest cur []) as [[[p' n'] x']|] eqn:R; [|discriminate].
+      intros H. injection H as <- <- <-. destruct (Hrec _ _ _ _ R) as [Hp _]. split; [exact Hp|split; assumption].
+  - apply split_dslash_none in D.
+    destruct (split_byte 58 target) as [[pre post]|] eqn:B.
+    + destruct (split_byte_some _ _ _ _ B) as (Hx & Hm). rewrite Hm.
+      destruct (rec (58%N :: post) cur []) as [[[p' n'] x']|] eqn:R; [|discriminate].
+      intros H. injection H as <- <- <-. destruct (Hrec _ _ _ _ R) as [Hp _]. split; [exact Hp|].
+      split; [exact Hm|]. rewrite Hx in D. exact (contains_dslash_prefix _ _ D).
+    + intros H. injection H as <- <- <-. split; [reflexivity|]. split; [exact (split_byte_none_inv _ _ B)|exact D].
+Qed.
+
+Lemma parts_fuel_inv f : forall t cur sr p n x,
+  valid_pkg cur = true -> sr_ok sr -> parts_fuel f t cur sr = Some (p, n, x) -> valid_pkg p = true /\ sr_ok x.
+Proof.
+  induction f as [|f IH]; intros t cur sr p n x Hcur Hsr; [discriminate|].
+  assert (Hfail : Some fail3 = Some (p, n, x) -> valid_pkg p = true /\ sr_ok x).
+  { intros H. injection H as <- <- <-. split; [reflexivity|apply sr_ok_nil]. }
+  destruct t as [|c0 [|c1 r2]]; try exact Hfail.
+  rewrite parts_fuel_eq.
+  destruct (N.eqb c0 58).
+  { destruct (valid_name (c1 :: r2)); [|exact Hfail]. intros H. injection H as <- <- <-. split; [exact Hcur|apply sr_ok_nil]. }
+  destruct (N.eqb c0 64).
+  { apply subrepo_with_inv. intros rest p' n' x'. apply IH; [exact Hcur|apply sr_ok_nil]. }
+  destruct (has_prefix (lit "///") (c0 :: c1 :: r2)).
+  { apply subrepo_with_inv. intros rest p' n' x'. apply IH; [exact Hcur|apply sr_ok_nil]. }
+  destruct (negb (N.eqb c0 47) || negb (N.eqb c1 47)); [exact Hfail|].
+  destruct (split_byte 58 (c0 :: c1 :: r2)) as [[pre name]|].
+  - cbn zeta. destruct (valid_pkg (skipn 2 pre)) eqn:V; cbn [negb orb]; [|exact Hfail].
+    destruct (negb (valid_name name) || str_eqb name (lit all_subpackages_name)); [exact Hfail|].
+    intros H. injection H as <- <- <-. split; [exact V|exact Hsr].
+  - destruct (valid_pkg r2) eqn:V; cbn [negb]; [|exact Hfail].
+    destruct (has_suffix (lit "/...") (c0 :: c1 :: r2)).
+    + intros H. injection H as <- <- <-. split; [|apply sr_ok_nil].
+      destruct (trim_right_prefix 47 (drop_last 3 r2)) as [[z1 Hz1] Hl].
+      destruct (drop_last_prefix 3 r2) as [z2 Hz2].
+      apply (valid_pkg_prefix _ (z1 ++ z2)); [|exact Hl].
+      rewrite app_assoc, <- Hz1, <- Hz2. exact V.
+    + intros H. injection H as <- <- <-. split; [exact V|exact Hsr].
+Qed.
+
+Theorem parsed_label_inv t cur sr l :
+  valid_pkg cur = true -> sr_ok sr -> try_parse t cur sr = Parsed l -> valid_pkg (l_pkg l) = true /\ sr_ok (l_sub l) /\ l_name l <> [].
+Proof.
+  intros Hcur Hsr. unfold try_parse, parse_parts.
+  destruct (parts_fuel (S (length t)) t cur sr) as [[[p n] x]|] eqn:E; [|discriminate].
+  destruct n as [|c n]; cbn [is_nil]; [discriminate|]. intros H. injection H as <-.
+  destruct (parts_fuel_inv _ _ _ _ _ _ _ Hcur Hsr E) as [Hp Hx]. simpl. repeat split; try assumption; try apply Hx. discriminate.
+Qed.
+
+(* ---- round trip of what the parser accepts, outside the three defect classes ----------------------------------------- *)
+
+Lemma defect_none_wf l :
+  valid_pkg (l_pkg l) = true -> sr_ok (l_sub l) -> defect_class l = None -> wf l.
+Proof.
+  intros Hp [Hc Hd]. unfold defect_class.
+  destruct (label_eqb l original_target) eqn:O; [discriminate|].
+  destruct (valid_name (l_name l)) eqn:V; cbn [negb]; [|discriminate].
+  destruct (last_is 47 (l_sub l)) eqn:S; [discriminate|]. intros _.
+  repeat split; try assumption. apply label_eqb_neq. exact O.
+Qed.
+
+Theorem roundtrip_parsed t cur sr l cur' :
+  valid_pkg cur = true -> sr_ok sr -> try_parse t cur sr = Parsed l -> defect_class l = None ->
+  try_parse (print l) cur' [] = Parsed l.
+Proof.
+  intros Hcur Hsr Hparse Hdef. destruct (parsed_label_inv _ _ _ _ Hcur Hsr Hparse) as (Hp & Hx & _).
+  apply roundtrip_wf. exact (defect_none_wf l Hp Hx Hdef).
+Qed.
+
+(* conversely every well-formed label is outside the classes, so the two statements cover the same labels *)
+Lemma wf_defect_none l : wf l -> defect_class l = None.
+Proof.
+  intros (_ & Hn & (_ & _ & Hl) & Ho). unfold defect_class.
+  apply label_eqb_neq in Ho. rewrite Ho, Hn, Hl. reflexivity.
+Qed.
+
+(* ---- the three witnesses ------------------------------------------------------------------------------------------------ *)
+
+Definition w_implied : label := L (lit ".a") (lit ".a") [].
+Lemma w_implied_parses : try_parse (lit "//.a") [] [] = Parsed w_implied.
+Proof. vm_compute. reflexivity. Qed.
+Lemma w_implied_fails : try_parse (print w_implied) [] [] <> Parsed w_implied.
+Proof. vm_compute. discriminate. Qed.
+Lemma w_implied_class : defect_class w_implied = Some ImpliedNameUnvalidated /\ print w_implied = lit "//.a:.a".
+Proof. vm_compute. split; reflexivity. Qed.
+
+Definition w_slash : label := L [] (lit "a") (lit "a/").
+Lemma w_slash_parses : try_parse (lit "@a/:a") [] [] = Parsed w_slash.
+Proof. vm_compute. reflexivity. Qed.
+Lemma w_slash_fails : print w_slash = lit "///a///:a" /\ try_parse (print w_slash) [] [] = Parsed (L [] (lit "a") (lit "a"))
+                      /\ defect_class w_slash = Some SubrepoTrailingSlash.
+Proof. vm_compute. repeat split; reflexivity. Qed.
+
+Lemma w_sentinel_fails :
+  try_parse (lit "//:_ORIGINAL") [] [] = Parsed original_target /\ print original_target = lit "command-line targets"
+  /\ try_parse (print original_target) [] [] = Invalid /\ defect_class original_target = Some OriginalTargetSentinel.
+Proof. vm_compute. repeat split; reflexivity. Qed.
